@@ -697,7 +697,13 @@ func (ex *Exec) indexAddr(x Value, iv Value) Value {
 	switch a := x.(type) {
 	case Slice:
 		if a.Rope != nil {
-			ex.unsupported("element address in rope-backed []byte")
+			// read access to a byte of a rope-backed slice (a copy: writes
+			// through this address are not supported and would be lost)
+			i64 := ex.toInt64(idx, types.Typ[types.Int])
+			ex.mustHold(ex.ts.Ult(i64, ex.strLen(*a.Rope)), "index out of range")
+			cell := new(Value)
+			*cell = ex.indexStr(*a.Rope, i64)
+			return Ptr{P: cell}
 		}
 		i := ex.boundedIndex(idx, len(a.A), true)
 		return Ptr{P: &a.A[i]}
